@@ -63,7 +63,8 @@ PROPS = {
         "level_text": "Offline trace checker over the real MotionProcessor's calls on a monitor sink, for all motion bit-strings up to length 11 (thorough 16) on ~330 small configurations, every single-disturbance placement (refused start, bad frame, reset) on shorter strings, a trigger-position sweep for ring capacities 1..24 and long random scripts. Exhaustive small scope + sampling; nothing is proved.",
         "level_note": "Frame identity is carried in Status.FrameCount by the harness parser; write/stop faults are excluded here by the property's quantifier (C12 covers them).",
         "technique": "offline trace checker on monitor sinks (exhaustive small scope + random scripts)",
-        "jobs": [dict(FSM_JOB)],
+        "jobs": [dict(FSM_JOB),
+                 {"pkg": "recorder-main", "test": "TestVerif_C01Pipe", "shards": (8, 16), "timeout": (300, 1800), "require": ["pipeline_connections", "motion_files", "throttled_connections", "test_recordings_overlapping_a_motion_recording"]}],
     },
     "C02": {
         "title": "Pre-trigger buffering: recordings start a full preview before the trigger",
@@ -74,7 +75,8 @@ PROPS = {
         "level_text": "Closed-form oracle for the first frame of every recording, evaluated on the same exhaustive-small-scope and random workloads as C01 plus a sweep placing the trigger at every position 0..3*cap+2 after start-up and after a previous stop for every cap 1..24 in several (preview, fps, trigger-frames) factorizations.",
         "level_note": "cap = preview-secs*fps + trigger-frames; the ring is not cleared by resets or bad frames (the property counts accepted frames).",
         "technique": "closed-form trace oracle on monitor sinks (exhaustive small scope + sweeps)",
-        "jobs": [dict(FSM_JOB)],
+        "jobs": [dict(FSM_JOB),
+                 {"pkg": "recorder-main", "test": "TestVerif_C01Pipe", "shards": (8, 16), "timeout": (300, 1800), "require": ["pipeline_connections", "motion_files", "throttled_connections", "test_recordings_overlapping_a_motion_recording"]}],
     },
     "C03": {
         "title": "Recording length: min-secs past the last motion, never more than max-secs",
@@ -98,7 +100,7 @@ PROPS = {
         "technique": "online start-iff monitor with scripted gates and injected window clock",
         "jobs": [dict(FSM_JOB, require=FSM_JOB["require"] + ["long_refused_runs"]),
                  {"pkg": "motion", "test": "TestVerif_C04Window", "shards": (8, 16), "timeout": (300, 1800), "require": ["window_runs", "motion_frames_outside_window", "frames_at_exact_boundary", "windows_spanning_midnight", "recordings"]},
-                 {"pkg": "recorder-main", "test": "TestVerif_C04Pipe", "shards": (6, 6), "timeout": (300, 900), "require": ["pipeline_gate_runs", "pipeline_motion_files"]},
+                 {"pkg": "recorder-main", "test": "TestVerif_C04Pipe", "shards": (6, 6), "timeout": (300, 900), "require": ["pipeline_gate_runs", "pipeline_motion_files", "runs_with_disk_check_disabled"]},
                  {"pkg": "recorder-main", "test": "TestVerif_C04PipeRetry", "shards": (8, 16), "timeout": (300, 900), "require": ["pipeline_retry_runs"]},
                  {"pkg": "throttle", "test": "TestVerif_ThrottleComposition", "shards": (16, 16), "timeout": (300, 2400), "require": ["composition_runs", "base_starts_checked", "mid_trigger_restarts", "base_start_failures", "runs_with_disk_low_windows"]}],
     },
@@ -111,7 +113,7 @@ PROPS = {
         "level_text": "Offline checker over the timestamped trace on the wrapped recorder for seeded caller schedules (idle-then-burst, churn at the refill boundary, continuous writing for several buckets, one-frame recordings, clock advances from 0/1ns/one tick +-1ns to 40 days) and for the composition real MotionProcessor -> real ThrottledRecorder under continuous and random motion; the largest observed excess over B + 1.01 r dt is reported.",
         "level_note": "main.go's wiring of the throttle (real clock) is checked one-sidedly by the pipeline job. The clock-step job keeps the clock the production constructor installs and rewrites only the wall part of its readings (what the kernel reports after NTP/date -s steps); its bound is evaluated on monotonic timestamps taken around every call (pre <= bucket reading <= post), so load can only loosen it.",
         "technique": "offline interval-bound checker on a timestamped event log (injected clock; production clock with emulated wall-clock steps)",
-        "jobs": [dict(TH_JOB),
+        "jobs": [dict(TH_JOB, require=TH_JOB["require"] + ["schedules_with_write_failures"]),
                  {"pkg": "throttle", "test": "TestVerif_C05ClockStep", "shards": (8, 16), "timeout": (300, 1800), "require": ["clock_step_runs", "clock_steps_forward", "clock_steps_backward", "runs_with_dry_bucket", "forwarded_writes"]},
                  {"pkg": "recorder-main", "test": "TestVerif_C05Pipe", "shards": (8, 16), "timeout": (600, 2400), "require": ["pipeline_runs", "frames_recorded_throttled", "throttled_files", "throttle_cut_files", "runs_with_continuous_recorder", "runs_after_a_camera_with_another_fps"]},
                  {"pkg": "throttle", "test": "TestVerif_ThrottleComposition", "shards": (16, 16), "timeout": (300, 2400), "require": ["composition_runs", "base_starts_checked", "mid_trigger_restarts", "base_start_failures", "runs_with_disk_low_windows"]}],
@@ -178,7 +180,7 @@ PROPS = {
         "title": "Only complete recordings ever bear the .cptv name; crashes leave no debris",
         "level": "fault_enumeration",
         "rule": "Scenarios through the real handleConn + CPTVFileRecorder in a child process (test binary re-executed): S1 one motion recording, S2 two back-to-back, S3 throttle cut, S4 test recording overlapping a motion recording, "
-                "S5 constant recorder on, S6 connection dropped in mid-frame (Stop path), S7 'clear' in mid-recording, S8 test recording and motion recording starting on the same frame, S9 throttle cut and restart within one trigger, S10 every start failing while the header is written, S11 the temporary names of the next 100 ms already taken when the motion recording starts S12 output directory and constant-recordings folder reached through symbolic links S13 an upload backlog of 3000 finished recordings in both directories (quick: S1,S3,S4,S5,S6,S8,S10,S11,S12,S13). "
+                "S5 constant recorder on, S6 connection dropped in mid-frame (Stop path), S7 'clear' in mid-recording, S8 test recording and motion recording starting on the same frame, S9 throttle cut and restart within one trigger, S10 every start failing while the header is written, S11 the temporary names of the next 100 ms already taken when the motion recording starts S12 output directory and constant-recordings folder reached through symbolic links S13 an upload backlog of 3000 finished recordings in both directories S14 a relative output-dir with a working directory other than the configuration directory (quick: S1,S3,S4,S5,S6,S8,S10,S11,S12,S13,S14). "
                 "An uncrashed run counts the hook hits H - the file recorder's own hooks (after create, after header, before/after each frame write, before Close, between Close and rename, after rename, abort path) and hook calls inserted by build overlay into a copy of go-cptv's file writer "
                 "(between its three file creations; in Close after flush, header patch, gzip copy, gzip flush/close, buffered flush, before/after closing and deleting the scratch file); then for EVERY n in 0..H the child SIGKILLs itself at hit n. "
                 "Oracles: I1 - every *.cptv decodes header to EOF with the stock reader, checked synchronously at every hook inside the child, by a free-running observer goroutine, and by the parent on the directory as found; "
@@ -239,7 +241,7 @@ PROPS = {
         "level_note": "Writes to a closed continuous sink after a bad frame were C12's finding F4 (fixed).",
         "technique": "independent-decoder differential + sink-trace scan + paired-execution comparator",
         "jobs": [{"pkg": "recorder-main", "test": "TestVerif_C13", "shards": (16, 16), "timeout": (300, 2400), "require": ["bad_frames_rejected", "valid_frames_accepted", "streams", "recordings_ended_by_bad_frame", "motion_frames", "valid_frames_compared", "streams_with_failing_stops"]},
-                 {"pkg": "recorder-main", "test": "TestVerif_C14Pipe", "race": True, "shards": (16, 16), "timeout": (600, 3000), "require": ["connections", "frames_verified_in_storage", "bad_frames_in_streams"]},
+                 {"pkg": "recorder-main", "test": "TestVerif_C14Pipe", "race": True, "shards": (16, 16), "timeout": (600, 3000), "require": ["valid_frames_with_zeros_deep_in_a_wide_border", "connections", "frames_verified_in_storage", "bad_frames_in_streams"]},
                  {"pkg": "recorder-main", "test": "TestVerif_Daemon", "daemon": True, "shards": (1, 1), "timeout": (300, 600)}],
     },
     "C14": {
@@ -260,7 +262,7 @@ PROPS = {
             {"pkg": "headers", "test": "TestVerif_C14Header", "tag": "386", "goarch": "386", "shards": (4, 8), "timeout": (300, 1800), "require": ["headers", "truncation_points"]},
             {"pkg": "leptond-main", "test": "TestVerif_C14Agree", "tag": "leptond", "shards": (1, 1), "timeout": (120, 120), "require": ["constant_sets_reported"]},
             {"pkg": "recorder-main", "test": "TestVerif_C14Agree", "tag": "recorder", "shards": (1, 1), "timeout": (120, 120), "require": ["constant_sets_reported"]},
-            {"pkg": "recorder-main", "test": "TestVerif_C14Pipe", "race": True, "shards": (16, 16), "timeout": (600, 3000), "require": ["clears_with_failing_stop", "connections", "frames_verified_in_storage", "clear_markers", "recordings_ended_by_clear", "motion_files", "bad_frames_in_streams"]},
+            {"pkg": "recorder-main", "test": "TestVerif_C14Pipe", "race": True, "shards": (16, 16), "timeout": (600, 3000), "require": ["connections_stalled_inside_a_prefix", "clears_with_failing_stop", "connections", "frames_verified_in_storage", "clear_markers", "recordings_ended_by_clear", "motion_files", "bad_frames_in_streams"]},
         ],
     },
     "C15": {
@@ -341,7 +343,7 @@ PROPS = {
         "level_text": "Reference-model monitor on the real FrameLoop: every transition out of every reachable (implementation x model) state for capacities 1..8 is executed and judged, plus random long sequences up to capacity 64. Exploration is the right level: the ring is small and deterministic, so the BFS part is complete for those capacities while larger ones are sampled.",
         "level_note": "Trusts RefRing as the specification and that product states are captured by (currentIndex, bufferFull, oldest, min(n,N), mark age).",
         "technique": "reference-model runtime monitor (BFS + random operation sequences)",
-        "jobs": [{"pkg": "motion", "test": "TestVerif_C19", "shards": (4, 16), "timeout": (120, 900), "require": ["bfs_transitions", "random_ops", "sparse_observation_pairs", "random_observations"]}],
+        "jobs": [{"pkg": "motion", "test": "TestVerif_C19", "shards": (4, 16), "timeout": (120, 900), "require": ["twin_ring_runs", "bfs_transitions", "random_ops", "sparse_observation_pairs", "random_observations"]}],
     },
     "C20": {
         "title": "Log limiter drops only exact repeats inside the interval, nothing else",
@@ -354,7 +356,7 @@ PROPS = {
         "level_note": "Trusts the two-variable shadow model; real time is used only in the MotionProcessor consequence job as a one-sided (sound) bound.",
         "technique": "online shadow-model monitor with injected clock",
         "jobs": [{"pkg": "loglimiter", "test": "TestVerif_C20", "shards": (8, 16), "timeout": (120, 900), "require": ["quiet_periods_of_weeks", "printed", "suppressed"]},
-                 {"pkg": "motion", "test": "TestVerif_C20Processor", "shards": (4, 8), "timeout": (120, 900), "require": ["alternating_write_failures_logged", "refused_starts", "log_lines"]}],
+                 {"pkg": "motion", "test": "TestVerif_C20Processor", "shards": (4, 8), "timeout": (120, 900), "require": ["alternating_write_failures_logged", "refusals_reprinted_after_another_line", "refused_starts", "log_lines"]}],
     },
 }
 
@@ -366,7 +368,7 @@ _PENDING = "check under construction in this session; not claimed until its moni
 # natively in the sandbox; no race detector there) over the same case lists, so that conversions and
 # products that only overflow on the production word size are observed too.
 ARCH32 = {
-    "C01": ["TestVerif_FSM"], "C02": ["TestVerif_FSM"], "C03": ["TestVerif_FSM"],
+    "C01": ["TestVerif_FSM", "TestVerif_C01Pipe"], "C02": ["TestVerif_FSM", "TestVerif_C01Pipe"], "C03": ["TestVerif_FSM"],
     "C04": ["TestVerif_FSM", "TestVerif_C04Window", "TestVerif_C04Pipe"],
     "C05": ["TestVerif_Throttle", "TestVerif_C05ClockStep", "TestVerif_ThrottleComposition"],
     "C06": ["TestVerif_Throttle", "TestVerif_ThrottleComposition"],
